@@ -320,3 +320,28 @@ def loop_nests() -> list[str]:
                     out.append(f"def 0 {{ a{k}(); {loop(outer, body, k)} f{k}(); end; }}")
     return out
 
+
+
+def alias_layouts() -> list[str]:
+    """alias (empty) routines before / between / behind routines that contain ifs, switches and loops, for numbered routines with targets and
+    for coroutines (the decompiler's label bookkeeping is per routine and keyed by offsets)"""
+    bodies = ["a{k}(); if ($V == {k}) {{ b{k}(); }} c{k}(); end;", "switch ($S) {{ case {k}: d{k}(); break; default: e{k}(); }} hold;",
+              "while ($W == {k}) {{ f{k}(); if ($V == {k}) {{ continue; }} g{k}(); }} return;", "h{k}(); return;",
+              "forever {{ i{k}(); if ($V == {k}) {{ break_loop; }} }} if ($U == {k} || $T == {k}) {{ j{k}(); }} else {{ l{k}(); }} end;"]
+    out = []
+    k = 0
+    for pattern in ("BA", "BAB", "BAAB", "BABAB", "BBA", "BAABA"):
+        for shift in range(len(bodies)):
+            for style in ("def", "coro"):
+                rts, bi = [], shift
+                for i, ch in enumerate(pattern):
+                    k += 1
+                    if ch == "A":
+                        body = "alias previous;"
+                    else:
+                        body = bodies[bi % len(bodies)].format(k=k)
+                        bi += 1
+                    hdr = f"coro CO_{k}" if style == "coro" else (f"def {i}" if i % 2 == 0 else f"def {i} for actor ACTOR_{k}")
+                    rts.append(f"{hdr} {{ {body} }}")
+                out.append("\n".join(rts) + "\n")
+    return out
